@@ -22,6 +22,10 @@ CHECKS = {
         text="Solver-decided for one iteration from an arbitrary state: K is the integer nearest to 1+(N-L)/((1-olap)L) capped at N-L+1 (tie free), starts within half a sample of k(N-L)/(K-1), reported overlap equals the realised mean overlap (bins with 1..4 symbolic starts), unclamped-regime clauses |L-L*|<=1/2 and the Kdes-level averaging bound; find_Jdes_binary_search and plan(force_target_nf) are executed in fork mode over every return pattern of an uninterpreted scheduler: exact count or error. Two-step monotonicity of L and K is posed in the thorough tier (may be inconclusive).",
         note="Exact reals; MIN_JDES/MAX_JDES shrunk to 8/32 values; 'within 10% of the iterative scheduler' is outside the claim; monotonicity obligations were inconclusive at 120 s in this sandbox and are reported as such, never as success.",
         ref="DESIGN.md section 4 C04"),
+    "C05": dict(
+        text="Symbolic verification of the wiring of compute(), _lpsd_core, compute_single_bin and the band filter: the whole analysis module is re-created over one namespace in which the 18 kernels are recorders returning fresh symbols, the window function returns a tagged symbolic array and _build_Q a tag; for plans covering every equality pattern of segment lengths (window/basis caches), every order, mode, backend (incl. auto->cuda above 1000 segments) and window kind the solver/recorder shows that bin j is produced by the right kernel with (x1[,x2], D[j], L[j], win(L[j]) -- Kaiser: length L+1, beta=alpha*pi, last sample dropped --, omega=2*pi*f[j]/fs, Q(L[j],order)), that results and window sums land in bin j, also after an earlier analysis with another window parameter; single-bin requests with symbolic frequency on 14 (N, L|fres, olap) shapes; band edges symbolic with every feasible mask explored by forking.",
+        note="The kernels themselves are C01's subject (here recorders); counterexamples are replayed by running the real compute()/compute_single_bin() on pseudo-random data against the reference estimator; single-bin segmentation is decided on the concrete shape grid, not for symbolic N/L/olap.",
+        ref="DESIGN.md section 4 C05"),
     "C06": dict(
         text="Bounded symbolic verification: the real auto kernels are executed on x[n]=A cos(w0 n+phi) with symbolic amplitude, phase, frequency and an arbitrary real window, and the solver shows XX=|A/2(e^{i phi}S1+e^{-i phi}W(2w0))|^2 for every such input (hence ps=A^2/2 exactly when the image term vanishes, any L and fractional bin); the scaling laws in c are shown on all 18 kernels and, with the law in the sampling rate a, on SpectrumResult for a generic bin; ENBW=fs*S2/S12. Tests check ENBW>0 only.",
         note="Reals for binary64; L<=4 (quick) / 6 (thorough), K<=2; the size of the Kaiser image term is C12's subject; scheduler homogeneity in fs is C03's.",
@@ -46,6 +50,18 @@ CHECKS = {
         text="Symbolic verification: XY_emp_var=M2/n, >=0, XY_emp_dev^2=var, G??_emp_dev=sqrt(M2/n)*2/(fs*S2), None for the other analysis type, on a generic bin (unbounded symbolic values); all 18 backend functions executed on symbolic data show M2 equal to the population variance of the per-segment cross products (0 for one segment, never negative). Tests only check finiteness.",
         note="Reals for binary64; kernel shapes L<=3,K<=2 here (C01 covers more); navg=K wiring belongs to C05; Gaussian agreement clause is statistical and outside.",
         ref="DESIGN.md section 4 C11"),
+    "C16": dict(
+        text="Symbolic verification: every tap returned by lagrange_taps equals the textbook Lagrange weight for a symbolic fraction d (orders 1..15 and the default 31; 55 in the thorough tier) and the taps sum to one; timeshift() is executed on symbolic records for ANY real shift within +-(n+3) samples (integer part enumerated by value forking inside the code, fraction symbolic): interior samples equal the interpolant at n+s, integer shifts displace with held end values, zero shift is the identity, polynomial records of degree <= order are reproduced, the time-varying path agrees with the constant path; df_timeshift applies exactly seconds*fs (symbolic) to the selected numeric columns only.",
+        note="Reals for binary64 (int/int constants such as j/halfp are kept exact by interpreting lagrange_taps from its source); n<=7 (quick)/9, orders<=5/9 for timeshift; np.pad/correlate/einsum/sliding_window_view are numpy's own code on object arrays.",
+        ref="DESIGN.md section 4 C16"),
+    "C17": dict(
+        text="Symbolic verification with a symbolic random stream: the colouring cascade (real py_func) carries its state exactly over every split of <=6 samples into <=3 blocks incl. empty and single-sample blocks and equals the direct-form reference cascade; for white, red, alpha and pink generators any sequence of block requests equals one request of the total length for a twin with the same seed (with and without the settling call), same seed => same samples, different/no seed => different stream (witness), get_sample runs equal the stream prefix.",
+        note="numpy's Generator being a stream and scipy.signal.lfilter's recurrence are stub contracts, validated on the real libraries at the boundary sizes on every run; for an empty input the lfilter stub returns an ARBITRARY final state (observed behaviour), which is what exposed F10.",
+        ref="DESIGN.md section 4 C17"),
+    "C19": dict(
+        text="Symbolic verification: polynomial_detrend's residual is orthogonal to all monomials of degree<=p, a polynomial is mapped to zero, adding one changes nothing, detrending is idempotent, order 0 is mean removal, short inputs fall back (n<=6, orders<=3); integral_rms^2 equals the trapezoidal sum over the in-band grid points for symbolic grids (<=5 points), ASD values and band edges (every membership pattern by forking), power is additive at grid points, nested bands are monotone, degenerate bands give 0; get_rms and df_detrend wiring.",
+        note="np.polyfit is replaced by its least-squares contract (normal equations); cumulative_trapezoid is scipy's own code on object arrays; the Parseval clause is statistical and outside.",
+        ref="DESIGN.md section 4 C19"),
     "C20": dict(
         text="Symbolic verification of every derived attribute against the documented function of the base estimates on a generic bin (cross and auto, zero statistics included), None rules and AttributeError for unknown names; get_measurement on 3 bins with symbolic increasing f, symbolic values and symbolic query (grid value, linearity of real/imag parts, clamping, scalar/array shape); to_dataframe's column dict for every pattern of per-bin segment counts incl. all-equal and single-bin results; __getattr__ termination on bare instances for all copy/pickle probe names (finite enumeration on the real code object) and copy/deepcopy/pickle round trips in the replay world.",
         note="Reals for binary64; np.interp, log10, atan2, unwrap, pandas and pickle by contract; export/protocol clauses are finite enumerations run on the clone, not solver queries (no symbolic input exists there).",
